@@ -275,7 +275,7 @@ fn point_case(ctx: &mut Ctx, wl: &str, case: u64, rng: &mut Rng) {
     let n = k.dim();
     let depth_z = *rng.choose(&[1.0, 0.3, 1e-2, 1e-4, 1e-6]);
     let depth_s = *rng.choose(&[1.0, 0.3, 1e-2, 1e-4, 1e-6]);
-    let (magz, mags) = (rng.logpos(-6.0, 6.0), rng.logpos(-6.0, 6.0));
+    let (magz, mags) = (rng.logpos(-9.0, 10.0), rng.logpos(-9.0, 10.0));
     let z = vc::sample_interior(&ct, rng, true, magz, depth_z);
     let s = vc::sample_interior(&ct, rng, false, mags, depth_s);
     let (mz, scz) = vc::margin(&ct, &z, true);
@@ -400,7 +400,15 @@ fn point_case(ctx: &mut Ctx, wl: &str, case: u64, rng: &mut Rng) {
         // the implementation stops its Newton / Wright-omega iterations at ~sqrt(eps) relative step; quadratic convergence => ~eps
         // tolerance from the implementation's documented stopping rule (Newton / Wright-omega iterations stop at a
         // relative step of sqrt(eps) ~ 1.5e-8 without taking it), times the conditioning of the point
-        j.judge("conjugacy_grad_dual_at_minus_gprimal", e, 1e-7 * cs, json!({"g_primal": gp, "grad_dual_at_-g": back}));
+        // ... and of the exponents: the inner equation is solved in the last coordinate only, and the map back
+        // to the first ones amplifies its error by ~1/min(alpha)
+        let amin = match &k {
+            K::Exp => 0.25,
+            K::Pow(a) => a.min(1.0 - a),
+            K::Gen(a, _) => a.iter().fold(1.0f64, |m, v| m.min(*v)),
+        };
+        let camp = (0.25 / amin).clamp(1.0, 100.0);
+        j.judge("conjugacy_grad_dual_at_minus_gprimal", e, 5e-7 * cs * camp, json!({"g_primal": gp, "grad_dual_at_-g": back, "alpha_amplification": camp}));
         let bp = obj.barrier_primal(&s);
         let want = -dg.value() - k.nu();
         j.judge("barrier_primal_by_conjugacy", (bp - want).abs(), 1e-10 * cs * (1.0 + want.abs()), json!({"got": bp, "want": want}));
